@@ -36,6 +36,7 @@ struct LimitEv {
     int early;
     int tid;
     long mainTicks;
+    long allTicks;
 };
 
 struct SleepEv { long long tBegin, tEnd; long mainTicks; };
